@@ -29,6 +29,7 @@ static wuffs_base__status call_f1(wuffs_demo__parser* p, wuffs_base__io_buffer* 
 static wuffs_base__status call_f2(wuffs_demo__parser* p, wuffs_base__io_buffer* d, wuffs_base__io_buffer* s) { return wuffs_demo__parser__f2(p, s); }
 static wuffs_base__status call_f3(wuffs_demo__parser* p, wuffs_base__io_buffer* d, wuffs_base__io_buffer* s) { return wuffs_demo__parser__f3(p, s); }
 static wuffs_base__status call_f4(wuffs_demo__parser* p, wuffs_base__io_buffer* d, wuffs_base__io_buffer* s) { return wuffs_demo__parser__f4(p, s); }
+static wuffs_base__status call_f7(wuffs_demo__parser* p, wuffs_base__io_buffer* d, wuffs_base__io_buffer* s) { return wuffs_demo__parser__f7(p, s); }
 static wuffs_base__status call_f5(wuffs_demo__parser* p, wuffs_base__io_buffer* d, wuffs_base__io_buffer* s) { return wuffs_demo__parser__f5(p, s); }
 
 typedef struct {
@@ -106,6 +107,7 @@ void harness_garbage_f2(void) { garbage_independent(call_f2); }
 void harness_garbage_f3(void) { garbage_independent(call_f3); }
 void harness_garbage_f4(void) { garbage_independent(call_f4); }
 void harness_garbage_f5(void) { garbage_independent(call_f5); }
+void harness_garbage_f7(void) { garbage_independent(call_f7); }
 void harness_garbage_f6(void) { garbage_independent(wuffs_demo__parser__f6); }
 void harness_garbage_transform(void) { garbage_independent(call_transform); }
 
